@@ -210,6 +210,7 @@ class Stats:
 
 
 DEFAULT_OVERRIDES = []
+INCREMENTAL_TIMEOUT_MS = 4000
 TDIV = z3.Function('tdiv', z3.IntSort(), z3.IntSort(), z3.IntSort())
 TREM = z3.Function('trem', z3.IntSort(), z3.IntSort(), z3.IntSort())
 
@@ -224,7 +225,8 @@ class Machine:
         self.worklist = worklist
         self.stats = stats
         self.solver = z3.Solver()
-        self.solver.set('timeout', timeout_ms)
+        self.solver.set('timeout', min(timeout_ms, INCREMENTAL_TIMEOUT_MS))
+        self.fresh_timeout_ms = timeout_ms
         self.pc = []
         self.fresh_n = 0
         self.loop_bound = loop_bound
@@ -265,8 +267,30 @@ class Machine:
         self.stats.solver_checks += 1
         self.solver.pop()
         if r == z3.unknown:
+            r = self.check_fresh(c)[0]
+        if r == z3.unknown:
             raise Unsupported('solver unknown')
         return r == z3.sat
+
+    def check_fresh(self, c, want_model=False):
+        """decide PC ∧ c from scratch (non-incremental: z3's preprocessing makes many queries that stall the
+        incremental core easy); returns (result, model or None)"""
+        self.stats.fresh_checks = getattr(self.stats, 'fresh_checks', 0) + 1
+        goals = list(self.pc) + ([c] if c is not True and c is not None else [])
+        for mk in (lambda: z3.Tactic('qflia').solver(), lambda: z3.Solver()):
+            try:
+                s = mk()
+                s.set('timeout', self.fresh_timeout_ms)
+                s.add(goals)
+                t = time.time()
+                r = s.check()
+                self.stats.solver_time += time.time() - t
+                self.stats.solver_checks += 1
+                if r != z3.unknown:
+                    return r, (s.model() if (want_model and r == z3.sat) else None)
+            except z3.Z3Exception:
+                continue
+        return z3.unknown, None
 
     def choose(self, conds):
         """conds: list of z3 Bool/True/False, mutually exclusive & exhaustive. Returns chosen index, adds constraint."""
